@@ -59,6 +59,10 @@ def seeds_for(name, quick, seed):
         sig2 = sig + (("salt0", st.get("salt") in ("", b"")),)
         if name in ("sha256_crypt", "sha512_crypt"):
             sig2 += (("r5000", st.get("rounds") == 5000),)
+        if isinstance(st.get("salt"), int):
+            # an integer salt (cisco_type7): the two ends of its range are seeds of their own
+            ends = [g["salt"] for g in grid if isinstance(g.get("salt"), int)]
+            sig2 += (("isalt", st["salt"] if st["salt"] in (min(ends), max(ends)) else "inner"),)
         if sig not in seen:
             seen.add(sig)
             seen2.add(sig2)
@@ -159,6 +163,15 @@ def mutations(h, sigma):
                            ("empty", ""), ("huge", "1" + "0" * 30), ("hugedigits", "9" * 5000), ("zero", "0"), ("hex", hex(v)), ("space", " " + num)):
             if rep != num:
                 out.append((f"num@{a}:{label}", h[:a] + rep + h[b:]))
+    # two-digit windows at the start of the string and of every field: every value 00..99 (a small decimal field --
+    # cisco_type7's offset, bcrypt's cost -- is enumerated completely: an alias may sit anywhere in its range)
+    starts = [0] + [i + 1 for i, ch in enumerate(h) if ch in SEPS]
+    for a in starts:
+        if h[a:a + 2].isdigit() and h[a:a + 2].isascii() and not h[a + 2:a + 3].isdigit() or (a == 0 and h[:2].isdigit() and h[:2].isascii()):
+            for v in range(100):
+                rep = f"{v:02d}"
+                if rep != h[a:a + 2]:
+                    out.append((f"num2@{a}:{rep}", h[:a] + rep + h[a + 2:]))
     # characters whose str.upper() / str.lower() is a longer or other ASCII text (ligatures, long s, dotless i, Kelvin
     # sign, sharp s): a parser that case-normalises before validating turns them into ordinary hex / letters
     out += casemap_mutations(h)
